@@ -197,7 +197,14 @@ func ignoreLines(o *Obs) []string {
 	if !ok {
 		return nil
 	}
-	return strings.Split(strings.TrimSuffix(s, "\n"), "\n")
+	var out []string
+	for _, ln := range strings.Split(s, "\n") {
+		ln = strings.TrimSuffix(ln, "\r")
+		if ln != "" {
+			out = append(out, ln)
+		}
+	}
+	return out
 }
 
 func checkWorktreeReport(c *Ctx, o *Obs, when string) (string, error) {
